@@ -50,6 +50,17 @@ struct c06_session : public vsim_session {
   {
     std::ostream &o = *out;
     if (cmd == "capture") { attach(); return true; }
+    if (cmd == "ediff") {
+      // colvarmodule::energy_difference(bias, conf): the rest of the line after the bias name is the alternative configuration
+      std::string conf;
+      for (size_t i = 1; i < a.size(); i++) { if (a[i] == "|") { conf += "\n"; continue; } conf += a[i]; conf += " "; }
+      conf += "\n";
+      cvm::clear_error();
+      cvm::real const de = proxy->colvars->energy_difference(a[0], conf);
+      o << "EDIFF " << a[0] << " de=" << vs_hex(de) << " err=" << vs_errclass(cvm::get_error()) << "\n";
+      cvm::clear_error();
+      return true;
+    }
     if (cmd == "tidump") {
       // TI estimator attached to a bias (colvarbias_ti): per bin the number of samples and the SUM of the collected forces
       for (colvarbias *b : proxy->colvars->biases) {
@@ -85,6 +96,9 @@ struct c06_session : public vsim_session {
           std::vector<colvarvalue> xv;
           for (size_t i = 0; i < b->num_variables(); i++) xv.push_back(b->variables(i)->value());
           o << " X=" << hexlist(xv);
+          std::vector<colvarvalue> av;      // values of the collective variable proper (differ from X for extended-Lagrangian variables)
+          for (size_t i = 0; i < b->num_variables(); i++) av.push_back(b->variables(i)->actual_value());
+          o << " AX=" << hexlist(av);
         }
         if (colvarbias_restraint_centers *c = dynamic_cast<colvarbias_restraint_centers *>(b)) o << " C=" << hexlist(c->colvar_centers);
         if (colvarbias_restraint_k *k = dynamic_cast<colvarbias_restraint_k *>(b)) o << " K=" << vs_hex(k->force_k);
